@@ -98,10 +98,10 @@ func isASCII(s string) bool {
 func c13Bounded(eng *Engine, tier string, seed int64) *BoundedResult {
 	maxS, maxSub := 3, 2
 	if tier == "thorough" {
-		maxS, maxSub = 4, 3
+		maxS, maxSub = 4, 2
 	}
 	src := fmt.Sprintf(c13TestSrc, maxS, maxSub)
-	out := runReplayTest(repoDir(), filepath.Join(repoDir(), "stringutil"), src)
+	out := runHarness(repoDir(), filepath.Join(repoDir(), "stringutil"), src)
 	res := &BoundedResult{
 		What:  "ContainsFold compared, on the real code, with the reference definition of the property (same-length substring at a rune boundary that is strings.EqualFold to substr) and, for ASCII operands, with strings.Contains(ToLower(s), ToLower(substr))",
 		Bound: fmt.Sprintf("all s of at most %d runes and all substr of at most %d runes over the alphabet k K U+212A s U+017F a A e-acute E-acute 1 sigma final-sigma Sigma and the four-member theta orbit U+0398 U+03B8 U+03D1 U+03F4", maxS, maxSub),
